@@ -19,10 +19,13 @@ package kmipclient
 //@ ghostvar rtMsg *kmip.RequestMessage
 //@ ghostvar rtRet *kmip.ResponseMessage
 //@ ghostvar rtErr error
+//@ ghostvar sentVersion kmip.ProtocolVersion
 
+// (assumption on user middlewares: a nil error comes with a non-nil response)
 //@ functype kmipclient.Middleware
 //@   params next, ctx, msg
 //@   results r, e
+//@   ensures e == nil ==> r != nil
 //@   pure
 //@   ghost cmwCalls = old(cmwCalls) + 1
 //@   ghost cmwSelf = self
@@ -34,6 +37,7 @@ package kmipclient
 
 //@ func (*Client).doRountrip
 //@   requires c != nil
+//@   ensures r1 == nil ==> r0 != nil
 //@   pure
 //@   ghost rtCalls = old(rtCalls) + 1
 //@   ghost rtCtx = ctx
@@ -47,6 +51,7 @@ package kmipclient
 //@   ensures i < len(c.middlewares) ==> isclosure(cmwNext, "(*Client).nextAt$1") && capt(cmwNext, "i") == i+1 && capt(cmwNext, "c") == c
 //@   ensures i >= len(c.middlewares) ==> cmwCalls == old(cmwCalls) && rtCalls == old(rtCalls)+1 && rtCtx == ctx && rtMsg == req && r0 == rtRet && r1 == rtErr
 //@   ensures i == old(i) && c == old(c)
+//@   ensures r1 == nil ==> r0 != nil
 //@   ghostmod cmwCalls, cmwSelf, cmwNext, cmwCtx, cmwMsg, cmwRet, cmwErr, rtCalls, rtCtx, rtMsg, rtRet, rtErr
 //@   pure
 
@@ -54,6 +59,77 @@ package kmipclient
 //@ func (*Client).Roundtrip
 //@   requires c != nil && (0 < len(c.middlewares) ==> c.middlewares[0] != nil)
 //@   ensures 0 < len(c.middlewares) ==> cmwCalls == old(cmwCalls)+1 && cmwSelf == c.middlewares[0] && cmwCtx == ctx && cmwMsg == msg && r0 == cmwRet && r1 == cmwErr
-//@   ensures len(c.middlewares) == 0 ==> rtCalls == old(rtCalls)+1 && rtCtx == ctx && rtMsg == msg && r0 == rtRet && r1 == rtErr
+//@   ensures len(c.middlewares) == 0 ==> rtCalls == old(rtCalls)+1 && cmwCalls == old(cmwCalls) && rtCtx == ctx && rtMsg == msg && r0 == rtRet && r1 == rtErr
+//@   ensures r1 == nil ==> r0 != nil
 //@   ghostmod cmwCalls, cmwSelf, cmwNext, cmwCtx, cmwMsg, cmwRet, cmwErr, rtCalls, rtCtx, rtMsg, rtRet, rtErr
+//@   ghost sentVersion = old(msg.Header.ProtocolVersion)
 //@   pure
+
+// ---------------------------------------------------------------------------
+// the server is arbitrary (C12, C13): what comes back from the transport is unconstrained except that a
+// nil error comes with a non-nil message (guaranteed by the decoders).
+
+//@ spec verLE(a kmip.ProtocolVersion, b kmip.ProtocolVersion) bool = a.ProtocolVersionMajor < b.ProtocolVersionMajor || (a.ProtocolVersionMajor == b.ProtocolVersionMajor && a.ProtocolVersionMinor <= b.ProtocolVersionMinor)
+//@ spec lastResp(c *Client) *kmip.ResponseMessage = ite(len(c.middlewares) == 0, rtRet, cmwRet)
+//@ spec lastReq(c *Client) *kmip.RequestMessage = ite(len(c.middlewares) == 0, rtMsg, cmwMsg)
+//@ spec sent(c *Client, n0 int, n1 int) bool = ite(len(c.middlewares) == 0, rtCalls == n1+1, cmwCalls == n0+1)
+//@ spec notSent(c *Client, n0 int, n1 int) bool = rtCalls == n1 && cmwCalls == n0
+//@ spec oneItem(r *kmip.ResponseMessage) bool = r != nil && r.Header.BatchCount == 1 && len(r.BatchItem) == 1
+//@ spec discoverPl(r *kmip.ResponseMessage) *payloads.DiscoverVersionsResponsePayload = dyn(r.BatchItem[0].ResponsePayload, *payloads.DiscoverVersionsResponsePayload)
+//@ spec discovered(r *kmip.ResponseMessage) bool = oneItem(r) && r.BatchItem[0].ResultStatus == kmip.ResultStatusSuccess && typeis(r.BatchItem[0].ResponsePayload, *payloads.DiscoverVersionsResponsePayload) && discoverPl(r) != nil
+//@ spec noDiscovery(r *kmip.ResponseMessage) bool = oneItem(r) && r.BatchItem[0].ResultStatus == kmip.ResultStatusOperationFailed && r.BatchItem[0].ResultReason == kmip.ResultReasonOperationNotSupported
+//@ spec globalsInit() bool = kmip.V1_0.ProtocolVersionMajor == 1 && kmip.V1_0.ProtocolVersionMinor == 0
+
+//@ func (*kmip.ResponseBatchItem).Err
+//@   trusted
+//@   requires bi != nil
+//@   ensures (bi.ResultStatus != kmip.ResultStatusSuccess) == (r0 != nil)
+//@   pure
+
+//@ func (*Client).negotiateVersion
+//@   requires c != nil && len(c.supportedVersions) > 0 && (0 < len(c.middlewares) ==> c.middlewares[0] != nil) && globalsInit()
+//@   ensures old(c.version) != nil ==> r0 == nil && c.version == old(c.version) && notSent(c, old(cmwCalls), old(rtCalls))
+//@   ensures old(c.version) == nil ==> sent(c, old(cmwCalls), old(rtCalls))
+//@   ensures r0 == nil && old(c.version) == nil ==> c.version != nil && contains(c.supportedVersions, *c.version)
+//@   ensures r0 == nil && old(c.version) == nil && discovered(lastResp(c)) ==> contains(discoverPl(lastResp(c)).ProtocolVersion, *c.version)
+//@   ensures r0 == nil && old(c.version) == nil && discovered(lastResp(c)) ==> forall k int :: 0 <= k && k < len(discoverPl(lastResp(c)).ProtocolVersion) && contains(c.supportedVersions, discoverPl(lastResp(c)).ProtocolVersion[k]) ==> verLE(discoverPl(lastResp(c)).ProtocolVersion[k], *c.version)
+//@   ensures old(c.version) == nil && ite(len(c.middlewares) == 0, rtErr, cmwErr) == nil && discovered(lastResp(c)) && (exists k int :: 0 <= k && k < len(discoverPl(lastResp(c)).ProtocolVersion) && contains(c.supportedVersions, discoverPl(lastResp(c)).ProtocolVersion[k])) ==> r0 == nil
+//@   ensures old(c.version) == nil && (ite(len(c.middlewares) == 0, rtErr, cmwErr) == nil) && noDiscovery(lastResp(c)) ==> ite(contains(c.supportedVersions, kmip.V1_0), r0 == nil && *c.version == kmip.V1_0, r0 != nil)
+//@   modifies c.version
+//@   ghostmod cmwCalls, cmwSelf, cmwNext, cmwCtx, cmwMsg, cmwRet, cmwErr, rtCalls, rtCtx, rtMsg, rtRet, rtErr
+//@   loop 0 invariant -1 <= rangeindex && rangeindex < len(pl.ProtocolVersion)
+//@   loop 0 invariant best != nil ==> contains(c.supportedVersions, *best) && contains(pl.ProtocolVersion, *best)
+//@   loop 0 invariant forall k int :: 0 <= k && k <= rangeindex && contains(c.supportedVersions, pl.ProtocolVersion[k]) ==> best != nil && verLE(pl.ProtocolVersion[k], *best)
+
+// ---------------------------------------------------------------------------
+// protocol-violating responses (C12)
+
+//@ functype kmipclient.BatchOption
+//@   params rm
+//@   ensures rm.Header.ProtocolVersion == old(rm.Header.ProtocolVersion) && len(rm.BatchItem) == old(len(rm.BatchItem))
+//@   modifies *rm
+
+//@ func (*Client).BatchOpt
+//@   requires c != nil && c.version != nil && (0 < len(c.middlewares) ==> c.middlewares[0] != nil) && len(payloads) <= 2147483647
+//@   requires (forall k int :: 0 <= k && k < len(payloads) ==> payloads[k] != nil) && (forall k int :: 0 <= k && k < len(opts) ==> opts[k] != nil)
+//@   ensures sent(c, old(cmwCalls), old(rtCalls)) && sentVersion == *c.version
+//@   ensures r1 == nil ==> len(r0) == len(payloads) && lastResp(c) != nil && int(lastResp(c).Header.BatchCount) == len(payloads) && r0 == lastResp(c).BatchItem
+//@   ensures ite(len(c.middlewares) == 0, rtErr, cmwErr) != nil ==> r1 != nil
+//@   ghostmod cmwCalls, cmwSelf, cmwNext, cmwCtx, cmwMsg, cmwRet, cmwErr, rtCalls, rtCtx, rtMsg, rtRet, rtErr, sentVersion
+//@   loop 0 invariant -1 <= rangeindex && rangeindex < len(opts) && msg.Header.ProtocolVersion == *c.version && len(msg.BatchItem) == len(payloads)
+
+//@ func (*Client).Batch
+//@   inline
+
+//@ func (*Client).Request
+//@   requires c != nil && c.version != nil && (0 < len(c.middlewares) ==> c.middlewares[0] != nil) && payload != nil
+//@   ensures r1 == nil ==> oneItemResp(lastResp(c)) && lastResp(c).BatchItem[0].ResultStatus == kmip.ResultStatusSuccess && r0 == lastResp(c).BatchItem[0].ResponsePayload
+//@   ensures r1 != nil ==> r0 == nil
+//@   ghostmod cmwCalls, cmwSelf, cmwNext, cmwCtx, cmwMsg, cmwRet, cmwErr, rtCalls, rtCtx, rtMsg, rtRet, rtErr
+
+//@ spec oneItemResp(r *kmip.ResponseMessage) bool = r != nil && len(r.BatchItem) == 1
+
+// every instantiation Executor[Req, Resp]: a nil error comes with a payload of the response type
+//@ func (Executor[Req, Resp]).ExecContext
+//@   requires ex.client != nil && ex.client.version != nil && (0 < len(ex.client.middlewares) ==> ex.client.middlewares[0] != nil)
+//@   ghostmod cmwCalls, cmwSelf, cmwNext, cmwCtx, cmwMsg, cmwRet, cmwErr, rtCalls, rtCtx, rtMsg, rtRet, rtErr
